@@ -66,6 +66,10 @@ pub fn exec(op: &str, a: &Value) -> Option<Value> {
             for i in 0..reps { out.push(zs[i % zs.len()].offset_nanoseconds()? / 1_000_000_000); }
             Ok(out)
         }, |v| Value::Array(v.iter().map(|x| int(*x)).collect())),
+        // the current date / date-time / time in a zone (system clock; only that the call returns is projected)
+        "CNow.date" => run(|| Now::plain_date_iso(Some(tz(a)?)), |_| p_str("now")),
+        "CNow.dateTime" => run(|| Now::plain_datetime_iso(Some(tz(a)?)), |_| p_str("now")),
+        "CNow.time" => run(|| Now::plain_time_iso(Some(tz(a)?)), |_| p_str("now")),
         "CZ.startOfDay" => run(|| zdt(a)?.start_of_day(), p_zdt),
         "CZ.toPlainDateTime" => run(|| zdt(a)?.to_plain_datetime(), p_datetime),
         // the Display implementation of the convenience layer (a separate code path from to_ixdtf_string)
